@@ -15,7 +15,7 @@ RULE = ('single calls: id relation {equal, different, null, type-confused ("1" f
         'result / error (registered and unregistered code, data absent / null / value) x invalid bodies (every JSON type, missing or '
         'wrong members) x strict on/off x sync/async x error base class. batches of 1..3 (quick) / 1..4 (thorough) calls plus an '
         'optional notification: every permutation of the response array, every single omission / duplication / addition, "1" for 1, a '
-        'null-id element added at each position, every success/error mix, batch-level error object, invalid arrays; a quarter of the cases on a client that has already completed a call and a batch. distinct = '
+        'null-id element added at each position, every success/error mix, batch-level error object, invalid arrays; every accepted batch is also read through batch.add(...).call() on a fresh client; a quarter of the cases on a client that has already completed a call and a batch. distinct = '
         'distinct (mode, requests, body); non-trivial = the body is a JSON object (single) / non-empty array (batch)')
 EXHAUSTIVE = {'quick': True, 'thorough': True}
 TRUSTED_BASE = ['json.loads / json.dumps (the body documents are float-free JSON values)']
@@ -79,6 +79,8 @@ def batch_cases(maxn):
               for k in range(n):
                   out.append((qset, ('json', good[:k] + good[k + 1:])))
                   out.append((qset, ('json', good + [good[k]])))
+                  out.append((qset, ('json', good + [resp(ids[k], 'e')])))          # the repeated id carried by an ERROR entry
+                  out.append((qset, ('json', [resp(ids[k], 'e3')] + good)))
                   conf = dict(good[k], id=str(ids[k]) if isinstance(ids[k], int) else 1)
                   out.append((qset, ('json', good[:k] + [conf] + good[k + 1:])))
                   out.append((qset, ('json', good[:k] + [resp(None, 'e')] + good[k:])))
@@ -120,6 +122,29 @@ def generate(seed, tier):
     return cases
 
 
+def via_call(case, base):
+    """The same requests built with batch.add / batch.notify on a fresh client whose id generator hands out the same ids, the
+    same body, read through batch.call()."""
+    script = ce.Script([('text', ce.body_text(tuple(case['body'])))])
+    ids = [q['id'] for q in case['qs'] if q['id'] is not None]
+    cl = ce.make_client(case['async'], script, strict=case['strict'], error_cls=base, id_gen_impl=lambda: iter(ids))
+
+    def go():
+        b = cl.batch
+        for q in case['qs']:
+            p = q['params']
+            args, kw = (list(p), {}) if isinstance(p, (list, tuple)) else ([], dict(p or {}))
+            if q['id'] is None:
+                b.notify(q['method'], *args, **kw)
+            else:
+                b.add(q['method'], *args, **kw)
+        return b.call()
+    o = ce.run(case['async'], go)
+    if o[0] == 'ok' and o[1] is not None:
+        o = ('ok', list(o[1]))
+    return ce.show_outcome(o)
+
+
 def observe(case):
     script = ce.Script([('text', ce.body_text(tuple(case['body'])))])
     base = getattr(pjrpc.exceptions, case['base'])
@@ -151,10 +176,11 @@ def observe(case):
         if b is None:
             return ('ok', None)
         res = ce.run(False, lambda: list(b.result))
+        via = via_call(case, base)
         if b.is_error:
-            return ('ok', {'error': ce.show_error(b.error), 'result': ce.show_outcome(res)})
+            return ('ok', {'error': ce.show_error(b.error), 'result': ce.show_outcome(res), 'via_call': via})
         return ('ok', {'resps': [ce.show_response(r) for r in b], 'related': [ce.show_request(r.related) for r in b],
-                       'result': ce.show_outcome(res)})
+                       'result': ce.show_outcome(res), 'via_call': via})
     return o
 
 
